@@ -341,6 +341,119 @@ def r3(ctx, chk):
     ok = _re.search(r"(\w+) = apply_timezone_from_settings\(\1, settings\)", " ".join(ast.unparse(pf.node).split())) is not None
     chk.ob(rule, "custom formats: result goes through apply_timezone_from_settings", ok, "",
            key={"function": pf.key, "construct": "helper call"}, file=pf.file, function=pf.qual, line=pf.node.lineno)
+    relative_now_rule(ctx, chk, rule)
+    relative_base_order_rule(ctx, chk, rule)
+    local_zone_rule(ctx, chk, rule)
+
+
+def local_zone_rule(ctx, chk, rule):
+    """TIMEZONE='local' means the process-local zone with its rules: every zone attached under a `"local" in ...`
+    guard comes from tzlocal.get_localzone() (a fixed offset taken from the clock is wrong in the other DST phase)"""
+    n = 0
+    reach = ctx.cg.reachable(["dateparser:parse", "dateparser.date:DateDataParser.get_date_data"])
+    for fk in sorted(reach):
+        f = ctx.ix.funcs[fk]
+        if not f.file.startswith("dateparser/") or f.file.startswith("dateparser/calendars"):
+            continue
+        for node in iter_own_nodes(f.node):
+            if not (isinstance(node, ast.Call) and isinstance(node.func, ast.Attribute)):
+                continue
+            z = None
+            if node.func.attr == "replace":
+                zs = [k.value for k in node.keywords if k.arg == "tzinfo"]
+                z = zs[0] if zs else None
+            elif node.func.attr == "localize" and node.args:
+                z = node.func.value
+            if z is None or isinstance(z, ast.Constant):
+                continue
+            local_guard = False
+            for test, pol in enclosing_tests(f.node, node):
+                for a, p in conjuncts(test, pol):
+                    if isinstance(a, ast.Compare) and isinstance(a.left, ast.Constant) and a.left.value == "local" and (
+                            (p and isinstance(a.ops[0], ast.In)) or (not p and isinstance(a.ops[0], ast.NotIn))):
+                        local_guard = True
+            # freshness: `if not now.tzinfo: now = now.replace(tzinfo=self.get_local_tz())` is the local fallback as well
+            src = ast.unparse(z)
+            if not local_guard and "local" not in src:
+                continue
+            n += 1
+            ok = _is_localzone(ctx, f, z)
+            chk.ob(rule, "%s: the local zone `%s` is tzlocal.get_localzone()" % (f.qual, src[:40]), ok,
+                   "under TIMEZONE='local' the attached zone is not the process-local zone object (e.g. a fixed offset taken "
+                   "from the current clock): dates in the other DST phase get the wrong offset",
+                   key={"function": fk, "construct": "local zone source " + " ".join(ast.unparse(node).split())[:60]},
+                   file=f.file, function=f.qual, line=node.lineno)
+    chk.floor(rule + ".local", n, 4, "zone attachments under a 'local' guard")
+    # get_date_from_timestamp: the local zone for fromtimestamp
+    f = ctx.ix.func("dateparser.date:get_date_from_timestamp")
+    for node in iter_own_nodes(f.node):
+        if isinstance(node, ast.Assign) and isinstance(node.targets[0], ast.Name):
+            for test, pol in enclosing_tests(f.node, node):
+                if pol and "local" in ast.unparse(test) and isinstance(node.value, ast.Call):
+                    chk.ob(rule, "timestamp: the zone used for TIMEZONE='local' is get_localzone()", ast.unparse(node.value) == "get_localzone()",
+                           "is %s" % ast.unparse(node.value), key={"function": f.key, "construct": "timestamp local zone"},
+                           file=f.file, function=f.qual, line=node.lineno)
+
+
+def _is_localzone(ctx, f, z, depth=0):
+    if depth > 3:
+        return False
+    if isinstance(z, ast.Call):
+        fn = ast.unparse(z.func)
+        if fn == "get_localzone":
+            return True
+        for s in ctx.cg.sites.get(f.key, ()):
+            if s.node is z and s.callees:
+                return all(any(isinstance(r, ast.Return) and r.value is not None and _is_localzone(ctx, c, r.value, depth + 1)
+                               for r in iter_own_nodes(c.node)) for c in s.callees)
+        return False
+    if isinstance(z, ast.Name):
+        defs = [n.value for n in iter_own_nodes(f.node) if isinstance(n, ast.Assign) and any(isinstance(t, ast.Name) and t.id == z.id for t in n.targets)]
+        return bool(defs) and all(_is_localzone(ctx, f, d, depth + 1) for d in defs)
+    return False
+
+
+def relative_base_order_rule(ctx, chk, rule):
+    """relative parser with RELATIVE_BASE: the decision to interpret the naive base in TIMEZONE is taken before the
+    base is attached to / re-expressed in the zone named in the string"""
+    f = ctx.ix.func("dateparser.freshness_date_parser:FreshnessDateDataParser.parse")
+    g = CFG(f.node)
+    zone_names = {n.targets[0].elts[1].id for n in iter_own_nodes(f.node) if isinstance(n, ast.Assign) and isinstance(n.value, ast.Call)
+                  and ast.unparse(n.value.func) == "pop_tz_offset_from_string" and isinstance(n.targets[0], ast.Tuple)}
+    starts = [s for s in iter_own_stmts(f.node.body) if isinstance(s, ast.Assign) and ast.unparse(s.value).endswith(".RELATIVE_BASE")]
+    if not starts or not zone_names:
+        raise AnalysisError(rule, "freshness parse: RELATIVE_BASE assignment / string zone not found")
+    nowv = ast.unparse(starts[0].targets[0])
+    tz_tests = [s for s in iter_own_stmts(f.node.body) if isinstance(s, ast.If) and "local" in ast.unparse(s.test)
+                and any(isinstance(x, ast.Call) and ast.unparse(x.func) == "localize_timezone" and ast.unparse(x.args[0]) == nowv
+                        and ast.unparse(x.args[1]).endswith(".TIMEZONE") for x in ast.walk(s))]
+    chk.ob(rule, "relative: a RELATIVE_BASE is interpreted in TIMEZONE (localize_timezone) unless TIMEZONE is local", bool(tz_tests), "",
+           key={"function": f.key, "construct": "base localized in TIMEZONE"}, file=f.file, function=f.qual, line=starts[0].lineno)
+    targets = []
+    for s in iter_own_stmts(f.node.body):
+        if isinstance(s, ast.Assign) and ast.unparse(s.targets[0]) == nowv and isinstance(s.value, ast.Call):
+            t = ast.unparse(s.value)
+            if any(("%s.localize(%s)" % (z, nowv)) in t or ("tzinfo=%s" % z) in t or (".astimezone(%s)" % z) in t for z in zone_names):
+                targets.append(s)
+    avoid = set()
+    for t_ in tz_tests:
+        avoid |= set(g.nodes_of(t_))
+    sids = set()
+    for s_ in starts:
+        for n_ in g.nodes_of(s_):
+            sids |= {m for m, _ in g.succ[n_]}
+    for tg in targets:
+        path = g.path_avoiding(sids, set(g.nodes_of(tg)), avoid)
+        chk.ob(rule, "relative: `%s` happens only after the TIMEZONE interpretation of the base" % ast.unparse(tg)[:50], path is None,
+               "the base reaches the string's zone without having been interpreted in TIMEZONE first: a naive RELATIVE_BASE is then "
+               "read as a wall clock of the zone named in the string (the later localize_timezone is a no-op on an aware value)",
+               key={"function": f.key, "construct": "TIMEZONE before string zone: " + " ".join(ast.unparse(tg).split())[:50]},
+               file=f.file, function=f.qual, line=tg.lineno)
+    chk.floor(rule + ".order", len(targets), 2, "attachments/re-expressions of the base in the string's zone")
+
+
+def relative_now_rule(ctx, chk, rule):
+    import re as _re
     # relative pipeline: implicit now is taken in TIMEZONE
     fr = ctx.ix.func("dateparser.freshness_date_parser:FreshnessDateDataParser.parse")
     # the local that is handed to _parse_date as the base
